@@ -159,7 +159,10 @@ def rule_hashcover(ctx):
                 feeds = set()
                 for pt, t in h.calls():
                     if any(x[0] == 'field' and x[2] == fl and x[3] == adt for a in t['args'] for x in walk(h.expr_of_operand(a))):
-                        feeds.add(pt[0])
+                        # round 10: a feed hands the field to the hasher - the call also receives the hasher (`state`); a predicate
+                        # over the field (`is_all_empty(&self.f)`) is not a feed
+                        if any(x[0] == 'arg' and x[1] == 2 for a in t['args'] for x in walk(h.expr_of_operand(a))):
+                            feeds.add(pt[0])
                 if feeds:
                     avoid = h.reachable(0, blocked=feeds)
                     rets = [rb for rb in h.return_blocks() if rb in avoid]
@@ -176,6 +179,14 @@ def rule_hashcover(ctx):
                                 continue
                             de = h.expr_of_operand(t['d']) if t['d']['k'] in ('copy', 'move') else ('const',)
                             if not any(x[0] == 'field' and x[2] == fl and x[3] == adt for x in walk(de)):
+                                bad = t
+                                break
+                            # round 10: the choice may look at the field only in a way that sends a SINGLE value down the skipping
+                            # path - its discriminant (`None`), or `is_empty` / `is_none` / `is_some` of it; any other predicate
+                            # (`is_all_empty(&self.f)`) sends a whole class of values there, which then hash alike
+                            single = de[0] == 'discr' or (de[0] == 'call' and de[1].rsplit('::', 1)[-1] in ('is_empty', 'is_none', 'is_some')) \
+                                or (de[0] == 'un' and de[2][0] == 'call' and de[2][1].rsplit('::', 1)[-1] in ('is_empty', 'is_none', 'is_some'))
+                            if not single:
                                 bad = t
                                 break
                     r.site('%s: field %s is fed to the hasher on every path' % (adt, fl), h.span(), 'violation' if bad else 'ok')
